@@ -151,13 +151,14 @@ fn c02_mut<X: TooDeeOpsMut<u32>>(ctx: &mut Ctx, kind: &str, x: &mut X, pos: &Pos
     }
 }
 
-fn c02_receiver(ctx: &mut Ctx, pshape: (usize, usize), win: Win, rk: u8) {
+fn c02_receiver(ctx: &mut Ctx, pshape: (usize, usize), win: Win, rk: u8, om: usize) {
     let (pc, pr) = pshape;
-    let extra = if rk >= 3 { 3 } else { 0 };
+    let on_slice = rk == 3 || rk == 4;
+    let extra = if on_slice { 3 } else { 0 };
     let mut buf: Vec<u32> = (0..(pc * pr + extra) as u32).collect();
     let orig = buf.clone();
-    let mut parent = if rk < 3 { TooDee::from_vec(pc, pr, std::mem::take(&mut buf)) } else { TooDee::default() };
-    let base = if rk < 3 { parent.data().as_ptr() as usize } else { buf.as_ptr() as usize };
+    let mut parent = if !on_slice { TooDee::from_vec(pc, pr, std::mem::take(&mut buf)) } else { TooDee::default() };
+    let base = if !on_slice { parent.data().as_ptr() as usize } else { buf.as_ptr() as usize };
     let root = Pos { base, stride: pc, start: (0, 0), size: if pc == 0 { (0, 0) } else { (pc, pr) } };
     let pos = root.sub(win.0, win.1).expect("harness: valid window");
     let (wc, wr) = pos.size;
@@ -165,7 +166,8 @@ fn c02_receiver(ctx: &mut Ctx, pshape: (usize, usize), win: Win, rk: u8) {
     let small = ctx.scale == Scale::Miri;
     let cs = coord_values(wc, pc, len_in, false, small);
     let rs = coord_values(wr, pc, len_in, true, small);
-    let kinds = ["TooDee", "TooDeeView", "TooDeeViewMut", "TooDeeView::new", "TooDeeViewMut::new"];
+    let kinds = ["TooDee", "TooDeeView", "TooDeeViewMut", "TooDeeView::new", "TooDeeViewMut::new", "TooDeeViewMut::view", "TooDeeView::view", "TooDeeViewMut::view_mut"];
+    let (outer, inner) = crate::recv::outer_of_mode(win, pc, pr, om);
     let kind = kinds[rk as usize];
     for &c in &cs {
         for &r in &rs {
@@ -191,6 +193,22 @@ fn c02_receiver(ctx: &mut Ctx, pshape: (usize, usize), win: Win, rk: u8) {
                     let v = TooDeeView::new(pc, pr, &buf);
                     c02_shared(ctx, kind, &v, &pos, c, r);
                 }
+                5 => {
+                    let o = parent.view_mut(outer.0, outer.1);
+                    let v = o.view(inner.0, inner.1);
+                    c02_shared(ctx, kind, &v, &pos, c, r);
+                }
+                6 => {
+                    let o = parent.view(outer.0, outer.1);
+                    let v = o.view(inner.0, inner.1);
+                    c02_shared(ctx, kind, &v, &pos, c, r);
+                }
+                7 => {
+                    let mut o = parent.view_mut(outer.0, outer.1);
+                    let mut v = o.view_mut(inner.0, inner.1);
+                    c02_shared(ctx, kind, &v, &pos, c, r);
+                    c02_mut(ctx, kind, &mut v, &pos, c, r);
+                }
                 _ => {
                     let mut v = TooDeeViewMut::new(pc, pr, &mut buf);
                     c02_shared(ctx, kind, &v, &pos, c, r);
@@ -203,12 +221,12 @@ fn c02_receiver(ctx: &mut Ctx, pshape: (usize, usize), win: Win, rk: u8) {
         }
     }
     // nothing was written
-    let now: &[u32] = if rk < 3 { parent.data() } else { &buf };
+    let now: &[u32] = if !on_slice { parent.data() } else { &buf };
     if now != &orig[..] {
         ctx.violation(kind, "access:cells-written", format!("buffer changed: {:?} -> {:?}", orig, now));
     }
     if wc > 0 {
-        ctx.nontrivial(("C02", rk, pshape, win));
+        ctx.nontrivial(("C02", rk, pshape, win, om));
     }
 }
 
@@ -218,7 +236,7 @@ pub fn run_c02(ctx: &mut Ctx) {
     for shape in shapes(n_owned) {
         for rk in [0u8, 3, 4] {
             if ctx.case(|| format!("C02 {} shape={}x{}", ["TooDee", "", "", "TooDeeView::new", "TooDeeViewMut::new"][rk as usize], shape.0, shape.1)) {
-                c02_receiver(ctx, shape, ((0, 0), shape), rk);
+                c02_receiver(ctx, shape, ((0, 0), shape), rk, 0);
             }
             if ctx.done() {
                 return;
@@ -227,12 +245,18 @@ pub fn run_c02(ctx: &mut Ctx) {
     }
     for shape in shapes(n_par) {
         for win in windows(shape.0, shape.1) {
-            for rk in [1u8, 2] {
-                if ctx.case(|| format!("C02 {} parent={}x{} win={:?}", ["", "TooDeeView", "TooDeeViewMut"][rk as usize], shape.0, shape.1, win)) {
-                    c02_receiver(ctx, shape, win, rk);
+            for rk in [1u8, 2, 5, 6, 7] {
+                // nested receivers: non-empty windows only (their outer window is the window grown by one cell)
+                if rk >= 5 && ((win.1).0 == (win.0).0 || (win.1).1 == (win.0).1) {
+                    continue;
                 }
-                if ctx.done() {
-                    return;
+                for om in 0..(if rk >= 5 { 3 } else { 1 }) {
+                    if ctx.case(|| format!("C02 {} parent={}x{} win={:?} outer-mode={}", ["", "TooDeeView", "TooDeeViewMut", "", "", "TooDeeViewMut::view", "TooDeeView::view", "TooDeeViewMut::view_mut"][rk as usize], shape.0, shape.1, win, om)) {
+                        c02_receiver(ctx, shape, win, rk, om);
+                    }
+                    if ctx.done() {
+                        return;
+                    }
                 }
             }
         }
